@@ -38,6 +38,31 @@ theorem filter_eq_delete (l : Layout) (b e : Option Int) (se : Option ScanErr) (
 theorem innermost_wins {α} (g : Option α) (v : α) : innermost g (some v) = some v ∧ innermost g (none : Option α) = g :=
   ⟨rfl, rfl⟩
 
+/-- **each bound is settled on its own**: a begin given globally and an end given on the sub-command (or the reverse) are both
+    in force — a bound is replaced only by the *same* bound on an inner level, never dropped because the other bound was given there -/
+theorem mixed_levels_keep_both (s : Settings) (now : Int) (l : Layout) (x y : Bytes) (tx ty : Int)
+    (hx : timeFromString now l x = .ok tx) (hy : timeFromString now l y = .ok ty) :
+    (s.gBegin = some x → s.sBegin = none → s.gEnd = none → s.sEnd = some y → boundsOf s now l = .ok (some tx, some ty))
+    ∧ (s.gBegin = none → s.sBegin = some x → s.gEnd = some y → s.sEnd = none → boundsOf s now l = .ok (some tx, some ty)) := by
+  constructor
+  · intro h1 h2 h3 h4
+    simp [boundsOf, h1, h2, h3, h4, optBind, hx, hy, innermost, Except.map]
+  · intro h1 h2 h3 h4
+    simp [boundsOf, h1, h2, h3, h4, optBind, hx, hy, innermost, Except.map]
+
+/-- the begin that is in force depends on the begin settings only, the end on the end settings only -/
+theorem bounds_independent (s s' : Settings) (now : Int) (l : Layout) (b e b' e' : Option Int)
+    (h : boundsOf s now l = .ok (b, e)) (h' : boundsOf s' now l = .ok (b', e')) :
+    (s.gBegin = s'.gBegin → s.sBegin = s'.sBegin → b = b') ∧ (s.gEnd = s'.gEnd → s.sEnd = s'.sEnd → e = e') := by
+  unfold boundsOf at h h'
+  constructor
+  · intro h1 h2
+    rw [← h1, ← h2] at h'
+    split at h <;> split at h' <;> simp_all
+  · intro h1 h2
+    rw [← h1, ← h2] at h'
+    split at h <;> split at h' <;> simp_all
+
 /-- today / yesterday / last7 / last30 are resolved against the current date (`--today`) -/
 theorem keywords (now : Int) (l : Layout) :
     timeFromString now l kwToday = .ok now
